@@ -18,8 +18,9 @@ whether they have a `head`, and everything else: functions, procedures, rules, c
 The case lists, prefixes, directory/extension formats, fixed names and `MAX_LEN` come from `Generated.Scanner`
 (re-extracted from the source on every run).  Not modelled: `print_schemas_separate`'s decision *how many passes*
 a schema needs (multpass.c `checkTypes/checkEnts`); the pass list is a parameter, and `Cxx.passes` gives it only for files
-in which no declaration depends on an enumeration/select/supertype of another schema (`foreign = false`), where
-multpass.c prints every schema once with suffix 0.
+in which no schema has a USE/REFERENCE clause (`foreign = false` on every declaration: nothing can depend on an
+enumeration/select/supertype of another schema, the only reason multpass.c defers a declaration), where every schema
+is printed once with suffix 0.
 -/
 namespace StepModel.GenFiles
 open StepModel.Generated.Scanner
@@ -59,8 +60,8 @@ def Schema.entities (s : Schema) : List EntityDecl := s.decls.filterMap fun | .e
 
 /-! ## shared naming code (class_strings.c, genCxxFilenames.c) -/
 
-def strToUpper (s : String) : String := s.map Char.toUpper      -- ToUpper: islower → toupper ("C" locale, ASCII)
-def strToLower (s : String) : String := s.map Char.toLower
+def strToUpper (s : String) : String := String.ofList (s.toList.map Char.toUpper)   -- ToUpper: islower → toupper ("C" locale, ASCII)
+def strToLower (s : String) : String := String.ofList (s.toList.map Char.toLower)
 
 /-- `ClassName`: prefix, first character upper, rest lower.  (The C reads past the terminator for an empty name;
     the parser never produces one.) -/
@@ -90,15 +91,18 @@ def entityImpl (e : EntityDecl) : String := entityImplDir ++ "/" ++ className e.
 /-! ## the scanner -/
 namespace Scanner
 
-/-- `notGenerated(t)` -/
-def notGenerated (t : TypeDecl) : Bool :=
-  notGeneratedCases.contains t.kind || (notGeneratedRenamed.contains t.kind && t.hasHead)
+/-- `notGenerated(t)` as a function of the body kind and of `TYPEget_head(t) != NULL` -/
+def notGeneratedKind (k : TypeKind) (head : Bool) : Bool :=
+  notGeneratedCases.contains k || (notGeneratedRenamed.contains k && head)
 
 /-- the OBJ_TYPE case of `printSchemaFilenames`: is the type listed? -/
-def listsType (t : TypeDecl) : Bool :=
-  if scannerSkipRenamed.contains t.kind && t.hasHead then false
-  else if notGenerated t then false
+def listsKind (k : TypeKind) (head : Bool) : Bool :=
+  if scannerSkipRenamed.contains k && head then false
+  else if notGeneratedKind k head then false
   else true
+
+def notGenerated (t : TypeDecl) : Bool := notGeneratedKind t.kind t.hasHead
+def listsType (t : TypeDecl) : Bool := listsKind t.kind t.hasHead
 
 /-- position of the last `c` in `s` (`string::rfind`) -/
 def rfind (s : List Char) (c : Char) : Option Nat :=
@@ -188,25 +192,27 @@ namespace Cxx
     `!TYPEget_RefTypeVarNm(t) && TYPEis_enumeration(t)`.  `TYPEget_RefTypeVarNm` is 1 for every type with a head and
     0 for head-less types of the kinds in `refTypeNone` (for aggregates it may also be 0 — irrelevant, they are not
     of kind `descrPrintKind`). -/
-def descriptionsPrints (t : TypeDecl) : Bool :=
-  if t.kind == descrRenamedReturn && t.hasHead then false
-  else (!t.hasHead && refTypeNone.contains t.kind) && t.kind == descrPrintKind
+def descriptionsPrints (k : TypeKind) (head : Bool) : Bool :=
+  if k == descrRenamedReturn && head then false
+  else (!head && refTypeNone.contains k) && k == descrPrintKind
 
 /-- does the first `TYPEselect_print(t)` reach `TYPEPrint(t)`?  A renamed select only gets typedefs. -/
-def selectPrints (t : TypeDecl) : Bool := !t.hasHead
+def selectPrints (head : Bool) : Bool := !head
 
 /-- first type loop of SCOPEPrint visits every CANPROCESS type except renamed enumerations -/
-def loop1Visits (t : TypeDecl) : Bool := !(t.kind == loop1ExcludeRenamed && t.hasHead)
+def loop1Visits (k : TypeKind) (head : Bool) : Bool := !(k == loop1ExcludeRenamed && head)
 /-- … and marks it PROCESSED unless it is a select -/
-def loop1Processed (t : TypeDecl) : Bool := loop1Visits t && t.kind != loop1KeepForLater
+def loop1Processed (k : TypeKind) (head : Bool) : Bool := loop1Visits k head && k != loop1KeepForLater
 
 /-- `TYPEPrint(t)` is executed for `t` during SCOPEPrint (all types CANPROCESS on entry; every select is handed to
     `TYPEselect_print` once — by the third loop or earlier by recursion from another select, the clientData mark
     makes later calls return at once). -/
-def typeCreates (t : TypeDecl) : Bool :=
-  (loop1Visits t && descriptionsPrints t) ||
-  (!loop1Processed t &&
-    ((t.kind == loop3SelectKind && selectPrints t) || (t.kind == loop3DescrKind && descriptionsPrints t)))
+def createsKind (k : TypeKind) (head : Bool) : Bool :=
+  (loop1Visits k head && descriptionsPrints k head) ||
+  (!loop1Processed k head &&
+    ((k == loop3SelectKind && selectPrints head) || (k == loop3DescrKind && descriptionsPrints k head)))
+
+def typeCreates (t : TypeDecl) : Bool := createsKind t.kind t.hasHead
 
 def typeFiles (s : Schema) : List String :=
   (s.types.filter typeCreates).flatMap fun t => [typeHeader t, typeImpl t]
@@ -258,19 +264,24 @@ def passes (f : SchemaFile) : Option (List Nat) :=
   if f.schemas.all (fun s => s.decls.all fun | .type t => !t.foreign | .entity e => !e.foreign | .other _ => true)
   then some [0] else none
 
-/-- files of one schema that must be compiled/installed, given the suffixes SCHEMAprint was called with -/
-def schemaBuildFiles (s : Schema) (sufs : List Nat) : Option (List String) :=
-  (sufs.mapM (schemaPass s)).map fun ps => ps.flatMap PassFiles.listedPart ++ typeFiles s ++ entityFiles s
+/-- all-or-nothing sequencing of outcomes (`none` = undefined behaviour somewhere) -/
+def allSome {α : Type} : List (Option α) → Option (List α)
+  | [] => some []
+  | none :: _ => none
+  | some a :: r => (allSome r).map (a :: ·)
 
-def schemaIncludedOnly (s : Schema) (sufs : List Nat) : Option (List String) :=
-  (sufs.mapM (schemaPass s)).map fun ps => ps.flatMap PassFiles.includedOnly
+/-- everything exp2cxx creates for one schema, given the suffixes SCHEMAprint was called with: the per-pass files the
+    build must know, the per-type and per-entity files, and the unity headers that are only `#include`d -/
+def schemaAll (s : Schema) (sufs : List Nat) : Option (List String) :=
+  match allSome (sufs.map (schemaPass s)) with
+  | some ps => some (ps.flatMap PassFiles.listedPart ++ typeFiles s ++ entityFiles s ++ ps.flatMap PassFiles.includedOnly)
+  | none => none
 
 /-- everything exp2cxx creates in its working directory for the file -/
 def created (f : SchemaFile) (sufs : Schema → List Nat) : Option (List String) :=
-  (f.schemas.mapM fun s => do
-      let a ← schemaBuildFiles s (sufs s)
-      let b ← schemaIncludedOnly s (sufs s)
-      pure (a ++ b)).map fun (l : List (List String)) => fixedFiles ++ l.flatten
+  match allSome (f.schemas.map fun s => schemaAll s (sufs s)) with
+  | some l => some (fixedFiles ++ l.flatten)
+  | none => none
 
 end Cxx
 
